@@ -86,6 +86,23 @@ def cases(tier, seed):
                 for fk in ("silent", "err", "stuck"):
                     cs.append({"seq": "write", "value": "@custom", "locs": locs, "wdata": data,
                                "unit": memseq.unit(kind, label, list(base), fault=[at, fk])})
+    # value-level writes to user-declared quantities, unsigned and signed: numbers (also negative, also the ones that
+    # do not fit) and the MASK / TMASK literals -- what ends up in the unit is the pattern of the value's kind
+    for label, locs in (("1", [0x10]), ("1", [0x10, 0x11]), ("1", [0x13, 0x14, 0x15]), ("1", [0x21, 0x20])):
+        w = len(locs)
+        for signed in (0, 1):
+            top = 256 ** w
+            nums = sorted({0, 1, -1, -2, 127, 128, -128, -129, top // 2 - 1, top // 2, -(top // 2), -(top // 2) - 1, top - 1, top,
+                           top - 2, rng.randrange(top), -rng.randrange(1, top // 2 + 1)})
+            for kind in ("gear", "device"):
+                base = memseq.default_image(label, rng, "rand")
+                for lit in ("MASK", "TMASK"):
+                    if signed:
+                        cs.append({"seq": "write", "value": "@custom", "locs": locs, "signed": signed, "lit": lit, "wdata": [],
+                                   "unit": memseq.unit(kind, label, list(base))})
+                for nv in nums:
+                    cs.append({"seq": "write", "value": "@custom", "locs": locs, "signed": signed, "lit": "num", "num": nv,
+                               "wdata": [], "unit": memseq.unit(kind, label, list(base))})
     return cs
 
 
